@@ -249,17 +249,23 @@ VP_HARNESS(h_build)
 #endif
 
 #if CLS == 6
-static char g_str[4][8], g_pstr[4][8];
+// every source string is its own exact-size heap object: a builder that reads past the end of a string_view (terminator
+// or alignment byte taken from the caller's memory instead of being written) is an out-of-bounds read here
+static char* g_str[4];
+static char* g_pstr[4];
 static const unsigned SL[4] = {S0, S1, S2, S3};
 static const unsigned PL[4] = {P0, P1, P2, P3};
-static void drawStr(char (*dst)[8], const unsigned* len)
+static void drawStr(char** dst, const unsigned* len)
 {
     for (int k = 0; k < 4; ++k)
+    {
+        dst[k] = static_cast<char*>(operator new(len[k] ? len[k] : 1));
         for (unsigned i = 0; i < len[k]; ++i)
         {
             dst[k][i] = static_cast<char>(vp_u8());
             vp_assume(dst[k][i] != 0);
         }
+    }
 }
 static bool svEq(std::string_view v, const char* s, unsigned n)
 {
